@@ -1,6 +1,79 @@
 package checks
 
-import "github.com/nuetzliches/hookaido/verifharness/vlib"
+import (
+	"fmt"
+	"os"
+	"path/filepath"
+	"strconv"
+	"syscall"
+	"time"
 
-// c09L3: real binary + SIGHUP (added with the L3 machinery).
-func c09L3(c *vlib.Ctx) {}
+	"github.com/nuetzliches/hookaido/verifharness/l3"
+	"github.com/nuetzliches/hookaido/verifharness/vlib"
+)
+
+const c09L3Config = `ingress { listen %INGRESS% }
+pull_api { listen %PULL%
+ auth token raw:tok }
+admin_api { listen %ADMIN% }
+/signed { auth hmac raw:topsecret
+ pull { path /pull/s } }
+`
+
+// c09L3: the real binary; original, SIGHUP (and --watch rewrite), replay well
+// inside the tolerance (wall clock).
+func c09L3(c *vlib.Ctx) {
+	if !c.Thorough() && os.Getenv("VERIF_C09_L3") == "" {
+		return
+	}
+	if _, err := os.Stat(l3.Bin()); err != nil {
+		c.Assume("product binary not built: the SIGHUP sample of C09 was skipped")
+		return
+	}
+	root := filepath.Join(vlib.VerifRoot(), ".run", fmt.Sprintf("c09.%d", os.Getpid()))
+	_ = os.MkdirAll(root, 0o755)
+	defer os.RemoveAll(root)
+	for t := 0; t < c.N(2, 10); t++ {
+		mode := []string{"sighup", "watch_rewrite"}[t%2]
+		p, err := l3.New(filepath.Join(root, fmt.Sprintf("t%d", t)), c09L3Config)
+		if err != nil {
+			c.Inconclusive("C09 L3: " + err.Error())
+			return
+		}
+		var args []string
+		if mode == "watch_rewrite" {
+			args = []string{"--watch"}
+		}
+		if err := p.StartHealthy(l3.StartOpts{Args: args}, 60*time.Second); err != nil {
+			c.Inconclusive("C09 L3 start: " + err.Error())
+			return
+		}
+		send := func(nonce string) int {
+			body := []byte("b-" + nonce)
+			ts := strconv.FormatInt(time.Now().Unix(), 10)
+			return p.Ingress("/signed", body, map[string]string{"X-Timestamp": ts, "X-Nonce": nonce, "X-Signature": signInbound("topsecret", "POST", "/signed", ts, body)}).Status
+		}
+		first := send("L3N")
+		switch mode {
+		case "sighup":
+			_ = p.Signal(syscall.SIGHUP)
+		default:
+			_ = p.WriteConfig(c09L3Config + "/extra { pull { path /pull/x } }\n")
+		}
+		// wait until the reload is visible: the admin API keeps answering; give the debounce time
+		time.Sleep(700 * time.Millisecond)
+		replay := send("L3N")
+		fresh := send("L3fresh")
+		c.Count("evaluations", 1)
+		c.Count("l3_reload_trials", 1)
+		c.Distinct("nontrivial", "l3:"+mode)
+		if first != 202 || fresh != 202 {
+			c.Inconclusive(fmt.Sprintf("C09 L3 (%s): valid requests answered %d / %d", mode, first, fresh))
+		}
+		if replay == 202 {
+			c.Violation(vlib.Signature{"class": "replay_accepted", "layer": "L3", "when": "inside_window", "between": "replay_after_" + mode},
+				fmt.Sprintf("real binary: a signed request was accepted again after %s (second answer %d)", mode, replay), nil)
+		}
+		p.Stop()
+	}
+}
